@@ -2,4 +2,6 @@ pub mod c26;
 pub mod c27;
 pub mod c28;
 pub mod c29;
+pub mod c30;
+pub mod c30_tokio;
 pub mod c32;
